@@ -207,6 +207,8 @@ func (r result) acceptedAuth() bool {
 	return r.Obs != nil && r.Obs.Reached && r.Obs.Authenticated && r.Obs.BodyErr == ""
 }
 
+func (r result) panicked() bool { return strings.HasPrefix(r.Err, "panic: ") }
+
 func (r result) anonymous() bool {
 	return r.Obs != nil && r.Obs.Reached && !r.Obs.Authenticated
 }
@@ -241,13 +243,18 @@ func (t *sigTarget) close() { t.client.CloseIdleConnections(); t.srv.Close() }
 
 // serveDirect parses wire bytes the way net/http's server does and calls the
 // handler in-process.
-func serveDirect(h http.Handler, wire []byte) (int, string) {
+func serveDirect(h http.Handler, wire []byte) (status int, errText string) {
 	req, err := http.ReadRequest(bufio.NewReader(bytes.NewReader(wire)))
 	if err != nil {
 		return 400, "parse: " + err.Error()
 	}
 	req.RemoteAddr = "127.0.0.1:54321"
 	rw := httptest.NewRecorder()
+	defer func() {
+		if p := recover(); p != nil {
+			status, errText = 0, fmt.Sprintf("panic: %v", p)
+		}
+	}()
 	h.ServeHTTP(rw, req)
 	return rw.Code, ""
 }
